@@ -312,6 +312,8 @@ OPTION_SETS = [
     {"DT_CONT": 0.0}, {"DT_PHASE_CHANGE": 0.0}, {"HTC": 2.5, "UTILITY_PRICE": 0.0},
     # degenerate but legal SHAPES named by the statement, applied to the request (keys starting with "_" are not options)
     {"_single_stream": True}, {"_duplicate_stream_names": True}, {"_unused_utilities": True}, {"_zero_duty_isothermal_stream": True},
+    # names that are schema-valid but collide with the library's own naming: a zone label without any component, a project named like a zone
+    {"_zone_label_slash": True}, {"_project_named_like_zone": True},
 ]
 
 
@@ -330,6 +332,8 @@ def reshape(req, opts):
     if opts.get("_zero_duty_isothermal_stream"):
         req["streams"] = list(req["streams"]) + [dict(zone=req["streams"][0]["zone"], name="Idle", t_supply=EMB_BASE.T(100), t_target=EMB_BASE.T(100),
                                                       heat_flow=0.0, dt_cont=EMB_BASE.dT(50), htc=1.0)]
+    if opts.get("_zone_label_slash"):
+        req["streams"][0]["zone"] = "/"
     req["options"].update(real)
     return real
 
@@ -341,7 +345,8 @@ def drive_options(args):
     try:
         req = request(case["S"], case["z"], case["ladder"], EMB_BASE)
         reshape(req, opts)
-        out, mz = _OP["service"](req, project_name="Site", is_return_full_results=True)
+        pname = req["streams"][-1]["zone"] if opts.get("_project_named_like_zone") else "Site"
+        out, mz = _OP["service"](req, project_name=pname, is_return_full_results=True)
         js = out.model_dump_json()
         back = json.loads(js)
         type(out).model_validate(back)
@@ -367,7 +372,7 @@ def drive_options(args):
         if sum(1 for n in names if n.endswith("/Direct Integration")) != len(zs):
             fails.append("C14.one_DI_record_per_zone")
         req2 = request(case["S"], case["z"], case["ladder"], EMB_BASE); reshape(req2, opts)
-        if _OP["service"](req2, project_name="Site").model_dump_json() != js:
+        if _OP["service"](req2, project_name=pname).model_dump_json() != js:
             fails.append("C14.repeat_call_identical")
     except Exception as e:
         fails.append("C14.service_raises")
@@ -389,6 +394,17 @@ def kf_dead_stream(v, f):
     """a stream with supply == target and a duty of exactly 0 never gets its bounds (KF-C19-dead at service level)"""
     return (bool(v.detail.get("options", {}).get("_zero_duty_isothermal_stream")) and v.clause == "C14.service_raises"
             and "_t_max" in (v.detail.get("exc") or ""))
+
+
+def kf_slash_label(v, f):
+    """a zone label made of separators only has no component: the stream's generated unit operation hangs directly below the site"""
+    return (bool(v.detail.get("options", {}).get("_zone_label_slash")) and v.clause == "C14.service_raises"
+            and "KeyError" in (v.detail.get("exc") or "") and "/Direct Integration" in (v.detail.get("exc") or ""))
+
+
+def kf_project_zone_name(v, f):
+    """records are named <zone name>/<kind>: a project named like one of its zones gives two records of one name"""
+    return bool(v.detail.get("options", {}).get("_project_named_like_zone")) and v.clause == "C14.record_names_unique"
 
 
 def kf_opzones(v, f):
@@ -595,6 +611,8 @@ def check(prop, tier, run: Run, replay_case=None):
         run.register_matcher("kf_opzones", kf_opzones)
         run.register_matcher("kf_area_zero_dt", kf_area_zero_dt)
         run.register_matcher("kf_dead_stream", kf_dead_stream)
+        run.register_matcher("kf_slash_label", kf_slash_label)
+        run.register_matcher("kf_project_zone_name", kf_project_zone_name)
         base_cases = gen_cases("quick2").cases
         sel = sample(base_cases, 12 if tier == "quick" else 150, 5)
         jobs = [(i, c, o) for i, c in enumerate(sel) for o in OPTION_SETS]
